@@ -38,15 +38,28 @@ SCENARIOS = ["import", "upgrade", "set", "reset_all", "reset_subset", "merge_har
 PY = sys.executable
 
 
-def env_for(home):
+ZONES = [None, "UTC0", "PST8PDT", "CET-1CEST", "NZST-12NZDT", "HST10", "IST-5:30"]
+
+
+def env_for(home, variant=0):
+    """environment of a child; `variant` selects ambient settings the outcome must not depend on
+    (time zone west / east of UTC, locale)"""
     env = dict(os.environ)
     env["HOME"] = home
     env["PYTHONPATH"] = os.pathsep.join([str(core.VERIF), str(core.REPO)])
+    tz = ZONES[variant % len(ZONES)]
+    env.pop("TZ", None)
+    if tz:
+        env["TZ"] = tz
+    if variant % 3 == 1:
+        env["LC_ALL"] = "C"
+    elif variant % 3 == 2:
+        env["LC_ALL"] = "C.UTF-8"
     return env
 
 
-def child(home, args, timeout=60):
-    p = subprocess.run([PY, "-m", "vmon.failpoint"] + [str(a) for a in args], env=env_for(home),
+def child(home, args, timeout=60, variant=0):
+    p = subprocess.run([PY, "-m", "vmon.failpoint"] + [str(a) for a in args], env=env_for(home, variant),
                        capture_output=True, text=True, timeout=timeout, cwd=os.path.dirname(home))
     info = None
     for line in p.stdout.splitlines()[::-1]:
@@ -151,7 +164,7 @@ def k_crash(run, case):
     os.makedirs(base, exist_ok=True)
     try:
         home = prepare_home(base, scenario, layout)
-        rc, info, err = child(home, [scenario, "crash", K, variant])
+        rc, info, err = child(home, [scenario, "crash", K, variant], variant=K)
         state, data = classify(home)
         run.seen(case, core.digest(scenario, K, variant, layout), nontrivial=state != "no-dir",
                  cls=["scenario:" + scenario, "variant:" + variant, "layout:" + layout, "state after death: " + state],
@@ -224,7 +237,7 @@ def k_race(run, case):
         for i in range(N):
             log = os.path.join(base, "log%d.json" % i)
             p = subprocess.Popen([PY, "-m", "vmon.failpoint", lead if i == 0 else "import", "race", "-1", "kill",
-                                  str(seed * 1000 + i), log, go], env=env_for(home), cwd=base,
+                                  str(seed * 1000 + i), log, go], env=env_for(home, seed), cwd=base,
                                  stdout=subprocess.PIPE, stderr=subprocess.PIPE, text=True)
             procs.append((p, log))
         t0 = time.time()
@@ -257,7 +270,7 @@ def k_race(run, case):
             ren.setdefault(i, len(ren))
             sig.append("%d:%s:%s" % (ren[i], kind, "tmp" if name not in ("settings.json", "assets_version", ".evo") else name))
         sig_h = hashlib.sha1("|".join(sig).encode()).hexdigest()[:16]
-        run.seen(case, int(sig_h, 16) % (2**62), cls=["race N=%d" % N, "race lead:" + lead],
+        run.seen(case, int(sig_h, 16) % (2**62), cls=["race N=%d" % N, "race lead:" + lead, "race TZ:%s" % ZONES[seed % len(ZONES)]],
                  sample={"N": N, "lead": lead, "exit_codes": [r[0] for r in results], "watcher": tally, "fs_steps": len(sig),
                          "interleaving_head": sig[:14]})
         run.extra.setdefault("sum_watcher_polls", 0)
